@@ -18,6 +18,8 @@ def loop_base(rnd, sid, threads=None, action="bench"):
     sc["alloc_script"] = {}
     sc["input_counters"] = []
     sc["clock"]["overheads"] = [0, 0, 0, 0]
+    # min_time with a cheap function takes thousands of rounds
+    sc["step_bound"] = 600000
     return sc
 
 
